@@ -17,6 +17,7 @@ import shutil
 import subprocess
 import sys
 import tempfile
+import time
 
 sys.path.insert(0, os.path.dirname(os.path.dirname(os.path.abspath(__file__))))
 import vlib
@@ -314,15 +315,18 @@ def select_stream(run, rng, model, vh, scratch, ntrees, per_tree):
         m = vlib.dec_line(o)
         args = [vlib.CPPCHECK] + ["-i" + os.fsdecode(p) for p in ign] + ["--file-filter=" + os.fsdecode(p) for p in filt] + \
                [os.fsdecode(p) for p, _ in inputs]
-        for attempt in range(4):
-            pr = subprocess.run(args, cwd=root, stdout=subprocess.PIPE, stderr=subprocess.STDOUT, timeout=300)
+        for attempt in range(8):
             # the shared build directory may be re-linked / its cfg files re-copied by a concurrent check
-            if b"installation is broken" not in pr.stdout and pr.returncode >= 0:
-                break
-            import time
-            time.sleep(5)
+            try:
+                pr = subprocess.run(args, cwd=root, stdout=subprocess.PIPE, stderr=subprocess.STDOUT, timeout=300)
+                last = pr.stdout.decode("utf-8", "replace")[-300:]
+                if b"installation is broken" not in pr.stdout and pr.returncode >= 0:
+                    break
+            except OSError as ex:
+                last = str(ex)
+            time.sleep(10)
         else:
-            raise vlib.BuildError("cppcheck binary not usable (concurrent rebuild?): " + pr.stdout.decode("utf-8", "replace")[-300:])
+            raise vlib.BuildError("cppcheck binary not usable (concurrent rebuild?): " + last)
         got = [mm.group(1) for mm in (CHECKING.match(l) for l in pr.stdout.split(b"\n")) if mm]
         if m == [b"F"]:
             run.count("select(e2e)", None, bucket="fuel")
